@@ -482,6 +482,19 @@ class World(object):
                             raise AssertionError("hook fault %s%s" % (name, w.opts.get("fault_message", "")))
                         raise RuntimeError("hook fault %s%s" % (name, w.opts.get("fault_message", "")))
             hook.__name__ = name
+            if w.opts.get("capture_decorated_hooks") and name != "before_all":
+                # the documented @capture decorator for environment functions (behave.log_capture.capture); whether the
+                # decorated hook logs something before raising is symbolic
+                from behave.log_capture import capture
+                inner = hook
+
+                def logging_hook(context, *args):
+                    if w.sx.bool("hooks_log_something"):
+                        import logging
+                        logging.getLogger("harness.hook").warning("hook %s called", name)
+                    return inner(context, *args)
+                logging_hook.__name__ = name
+                return capture(logging_hook)
             return hook
         names = ["before_all", "after_all", "before_feature", "after_feature", "before_rule", "after_rule",
                  "before_scenario", "after_scenario", "before_step", "after_step", "before_tag", "after_tag"]
